@@ -56,19 +56,28 @@ type debounceRunner struct {
 	mu     sync.Mutex
 	log    [][3]int
 	ncalls int
+	slow   int // ms the debounced function itself takes (after it has logged its start)
 }
 
 func (r *debounceRunner) Close() { r.cancel(); synctest.Wait() }
 
 func (r *debounceRunner) Do(op []string) string {
 	switch op[0] {
+	case "slow":
+		// from now on the debounced function takes <ms> of (virtual) time: calls and cancels may arrive while it runs
+		r.slow = atoi(op[1])
+		return itoa(r.now())
 	case "call":
 		k, tc := r.ncalls, r.now()
 		r.ncalls++
+		slow := r.slow
 		r.call(func() {
 			r.mu.Lock()
 			r.log = append(r.log, [3]int{r.now(), k, tc})
 			r.mu.Unlock()
+			if slow > 0 {
+				time.Sleep(c20ms(slow))
+			}
 		})
 		synctest.Wait()
 		return itoa(r.now())
@@ -605,6 +614,13 @@ func genC20(g *Gen) {
 			}
 			muts := append(append([]string{}, s...), c20sleep(w))
 			g.Emit("debounce", []string{itoa(w)}, interleave(muts, obsD))
+			// the same arrangement with a debounced function that is still running when later calls / cancels arrive
+			if w >= 4 && g.idx%3 == 0 {
+				for _, sl := range []int{w / 2, w + 2} {
+					muts := append(append([]string{"slow " + itoa(sl)}, s...), c20sleep(w), c20sleep(w+3))
+					g.Emit("debounce", []string{itoa(w)}, interleave(muts, obsD))
+				}
+			}
 		})
 	}
 	// (c) seeded random debounce runs, including wait 0 and 1
@@ -633,6 +649,9 @@ func genC20(g *Gen) {
 			}
 		}
 		muts = append(muts, c20sleep(w))
+		if w >= 2 && rng.Intn(3) == 0 {
+			muts = append([]string{"slow " + itoa([]int{1, w / 2, w - 1, w, w + 1}[rng.Intn(5)])}, append(muts, c20sleep(2*w+2))...)
+		}
 		g.Emit("debounce", []string{itoa(w)}, interleave(muts, obsD))
 	}
 	// ---- delay ----------------------------------------------------------------------------------
